@@ -4,7 +4,8 @@ package main
 // input classes behind the repaired defects "ghost looked up through a new symlink" and "entry
 // really named like a temporary name" were only present as ONE fixed corpus witness each (the
 // smallest one: ghost directly below the link; a regular file with the reserved name in both
-// builds). Both classes are generated here in breadth.
+// builds). Both classes are generated here in breadth. A later round (variant C02-9) added the
+// class "symlink of both builds whose destination changes as text only" (c02GenLinks).
 
 import (
 	"fmt"
@@ -394,6 +395,162 @@ func c02GenTmpNames(r *lib.Rng) (*lib.Build, *lib.Build, []string) {
 			how = "both:file->link"
 		}
 		rel = append(rel, "reserved-name:"+name+":"+how)
+	}
+	return old, nw, rel
+}
+
+// ---------------------------------------------------------------- symlinks whose destination TEXT changes
+
+// c02NearDest returns a destination that differs from d as a string while some weaker comparison
+// (cleaned paths, case folding, prefix / length / base name, the file the link resolves to) calls
+// the two equal. via names the first component of the "<via>/../d" form: a directory (the same
+// file is meant), a symlink to a nested directory (another file is meant) or nothing at all.
+// alias is the name of a symlink that points to d.
+func c02NearDest(r *lib.Rng, d, via, alias string) (string, string) {
+	base := d[strings.LastIndexByte(d, '/')+1:]
+	switch r.Intn(13) {
+	case 0:
+		return "./" + d, "dot-slash"
+	case 1:
+		return d + "/", "trailing-slash"
+	case 2:
+		return d + "/.", "trailing-dot"
+	case 3:
+		if i := strings.IndexByte(d, '/'); i >= 0 {
+			return d[:i] + "/" + d[i:], "double-slash"
+		}
+		return ".//" + d, "double-slash"
+	case 4, 5:
+		return via + "/../" + d, "dotdot-via:" + via
+	case 6:
+		return "sub/../" + "./" + d, "dotdot-via-missing+dot"
+	case 7: // the case of the last component's first letter
+		c := base[0]
+		switch {
+		case 'a' <= c && c <= 'z':
+			c -= 32
+		case 'A' <= c && c <= 'Z':
+			c += 32
+		default:
+			c = 'X'
+		}
+		return d[:len(d)-len(base)] + string(c) + base[1:], "case"
+	case 8:
+		return d + []string{".1", "2", "~"}[r.Intn(3)], "old-is-prefix"
+	case 9:
+		if len(base) > 1 {
+			return d[:len(d)-1], "new-is-prefix"
+		}
+		return d + "x", "old-is-prefix"
+	case 10: // same length, last character differs
+		c := d[len(d)-1] + 1
+		if c == '/' || c > 'z' {
+			c = 'a'
+		}
+		return d[:len(d)-1] + string(c), "same-length"
+	case 11:
+		return "alt/" + base, "same-basename"
+	default:
+		return alias, "same-target-via:" + alias
+	}
+}
+
+// c02GenLinks: one to four symlinks (in the root, in bin/ or in p/q/, one of them possibly a level
+// further down) that exist in the old build, the new build or both. A link of both builds keeps
+// its destination, is retargeted to another entry, or - the emphasis - gets a destination that is
+// another TEXT for (nearly) the same thing, in either direction: "lib" <-> "./lib", "lib/",
+// "lib/.", ".//lib", "data//lib", "data/../lib" (data a real directory), "cur/../lib" (cur a
+// symlink to a nested directory: another file), "nox/../lib" (dangling), "Lib", "lib.1", "li",
+// "lic", "alt/lib", the name of another symlink that points to "lib". The destinations are files,
+// directories, other symlinks or nothing. Two links may exchange their destinations. The files
+// around them are kept, patched or renamed - or there is no file work at all.
+func c02GenLinks(r *lib.Rng) (*lib.Build, *lib.Build, []string) {
+	old, nw := &lib.Build{}, &lib.Build{}
+	var rel []string
+	tag := byte(60)
+	data := func() []byte { tag++; return append(c02Content(r, r.Range(1, 400)), tag) }
+	prefix := []string{"", "", "bin/", "p/q/"}[r.Intn(4)]
+	both := func(e lib.Entry) {
+		e.Path = prefix + e.Path
+		old.Put(e)
+		nw.Put(e)
+	}
+	fileWork := !r.Chance(1, 4)
+	for _, p := range []string{"lib", "data/lib", "data/deep/x", "alt/lib"} {
+		e := lib.Entry{Path: p, Kind: "file", Data: data()}
+		both(e)
+		if fileWork && r.Chance(1, 3) {
+			d, how := c02Edit(r, e.Data)
+			nw.Put(lib.Entry{Path: prefix + p, Kind: "file", Data: append(d, 17)})
+			rel = append(rel, "patched:"+prefix+p+":"+how)
+		}
+	}
+	both(lib.Entry{Path: "cur", Kind: "link", Dest: "data/deep"})
+	if fileWork && r.Bool() {
+		e := lib.Entry{Path: "r1", Kind: "file", Data: data()}
+		old.Put(e)
+		nw.Put(lib.Entry{Path: prefix + "r2", Kind: "file", Data: e.Data})
+		rel = append(rel, "rename:r1->"+prefix+"r2")
+	}
+	if fileWork && r.Chance(1, 3) {
+		nw.Put(lib.Entry{Path: prefix + "added", Kind: "file", Data: data()})
+		rel = append(rel, "added:"+prefix+"added")
+	}
+	pool := []string{"lib", "lib", "data/lib", "data/deep", "data/deep/x", "cur", "nowhere"}
+	nl := r.Range(1, 4)
+	type lk struct{ path, od, nd, how string }
+	var links []lk
+	for i := 0; i < nl; i++ {
+		// dir: where the link lives below prefix; up: how its destinations get back to prefix
+		dir, up := "", ""
+		if i == nl-1 && r.Chance(1, 4) {
+			dir, up = "ld/", "../"
+		}
+		d := pool[r.Intn(len(pool))]
+		l := lk{path: fmt.Sprintf("%s%sl%d", prefix, dir, i)}
+		switch x := r.Intn(16); {
+		case x < 2:
+			l.od, l.nd, l.how = up+d, up+d, "kept"
+		case x < 3:
+			l.nd, l.how = up+d, "added"
+		case x < 4:
+			l.od, l.how = up+d, "removed"
+		case x < 6:
+			l.od, l.nd, l.how = up+d, up+pool[r.Intn(len(pool))], "retarget"
+			if l.od == l.nd {
+				l.nd = up + "elsewhere"
+			}
+		default:
+			alias := fmt.Sprintf("alias%d", i)
+			via := []string{"cur", "cur", "data", "nox"}[r.Intn(4)]
+			n, h := c02NearDest(r, d, via, alias)
+			l.od, l.nd, l.how = up+d, up+n, "near:"+h
+			if n == alias { // a symlink next to the link, pointing where the link pointed
+				both(lib.Entry{Path: dir + alias, Kind: "link", Dest: up + d})
+				l.nd = alias
+			}
+			if r.Chance(1, 3) {
+				l.od, l.nd = l.nd, l.od
+				l.how += ":reversed"
+			}
+		}
+		links = append(links, l)
+	}
+	if len(links) >= 2 && r.Chance(1, 6) {
+		a, b := &links[0], &links[1]
+		if a.od != "" && b.od != "" && a.od != b.od && !strings.Contains(b.path, "ld/") {
+			a.nd, b.nd = b.od, a.od
+			a.how, b.how = "exchange", "exchange"
+		}
+	}
+	for _, l := range links {
+		if l.od != "" {
+			old.Put(lib.Entry{Path: l.path, Kind: "link", Dest: l.od})
+		}
+		if l.nd != "" {
+			nw.Put(lib.Entry{Path: l.path, Kind: "link", Dest: l.nd})
+		}
+		rel = append(rel, fmt.Sprintf("link:%s:%s:%q->%q", l.path, l.how, l.od, l.nd))
 	}
 	return old, nw, rel
 }
